@@ -181,6 +181,20 @@ theorem taskReject_frc {s s' : State} {w : Nat} {id : TaskId} {rv : Option Nat} 
                 (Fr.setState_rd (P := False) (s := s.setWorker wk) rd (id := id) ht rfl rfl trivial)
             exact R _ _ (by cases rv <;> first | exact .inl rfl | exact .inr ⟨_, rfl⟩)
           · exact requeue _ (W _ (by cases rv <;> first | exact .inl rfl | exact .inr ⟨_, rfl⟩)) rfl h
+      · -- multi-node: refused by its root before the start was reported
+        split at h
+        · cases h
+        · split at h
+          · cases h; exact W _ (by cases rv <;> first | exact .inl rfl | exact .inr ⟨_, rfl⟩)
+          · split at h
+            · cases h; exact W _ (by cases rv <;> first | exact .inl rfl | exact .inr ⟨_, rfl⟩)
+            · split at h
+              · cases h; exact W _ (by cases rv <;> first | exact .inl rfl | exact .inr ⟨_, rfl⟩)
+              · split at h
+                · cases h
+                · rename_i s1 hr
+                  exact requeue _ ((W _ (by cases rv <;> first | exact .inl rfl | exact .inr ⟨_, rfl⟩)).trans
+                    (resetMnChecked_frc _ _ _ _ hr)) (by have := resetMnChecked_tasks _ _ _ _ hr; exact this) h
       all_goals cases h
 
 theorem retractLoop_frc (ids : List TaskId) (s s' : State) (w : Nat) (acc acc' : List (Nat × TaskId × Nat))
